@@ -77,6 +77,7 @@ type Contract struct {
 	Cuts       []*Cut    // intermediate assertions anchored on a source statement: after "<stmt text>" assert[label] expr
 	Inlines    map[string]int // callees whose real bodies are executed in place while this function is verified (value: how often their loops are unrolled)
 	FnType     bool      // "contract type T": contract of every value of the named function type T that is not a known function (self = the value)
+	FnParamOf, FnParam string // "contract fnparam F.p": function key and parameter name
 	UnrollAll  int       // "unroll n": loops of this function are unrolled n times when its body is executed in place
 }
 
@@ -164,13 +165,46 @@ func parseContractFile(path, pkgName, pkgPath string) ([]*Contract, error) {
 			pendingMacro = nil
 			key := strings.TrimSpace(body[len("contract "):])
 			fnType := false
+			fnParam := ""
 			if strings.HasPrefix(key, "type ") {
 				fnType = true
 				key = strings.TrimSpace(key[len("type "):])
 			}
+			if strings.HasPrefix(key, "fnresult ") {
+				// contract fnresult F.r : what the function value returned as result r of F does when it is called; the
+				// parameters of F (values at that call) may be named in it
+				f := strings.Fields(key)
+				if len(f) == 2 {
+					if i := strings.LastIndex(f[1], "."); i > 0 {
+						fnParam = "result:" + f[1][i+1:]
+						key = f[1][:i]
+						fnType = true
+					}
+				}
+			}
+			if strings.HasPrefix(key, "fnparam ") {
+				// contract fnparam F.p : what the function value passed for parameter p of F is assumed to do when F calls it
+				f := strings.Fields(key)
+				if len(f) == 2 {
+					if i := strings.LastIndex(f[1], "."); i > 0 {
+						fnParam = f[1][i+1:]
+						key = f[1][:i]
+						fnType = true
+					}
+				}
+			}
 			cur = &Contract{Key: qualifyKey(key, pkgName), PkgName: pkgName, PkgPath: pkgPath, Loops: map[int]*LoopSpec{}, Where: where, FnType: fnType}
-			if fnType {
+			if fnType && fnParam == "" {
 				cur.Key = "type " + cur.Key
+			}
+			if strings.HasPrefix(fnParam, "result:") {
+				cur.FnParamOf = cur.Key
+				cur.FnParam = fnParam
+				cur.Key = "fnresult " + cur.Key + "." + fnParam[len("result:"):]
+			} else if fnParam != "" {
+				cur.FnParamOf = cur.Key
+				cur.FnParam = fnParam
+				cur.Key = "fnparam " + cur.Key + "." + fnParam
 			}
 			out = append(out, cur)
 			last = nil
